@@ -151,7 +151,33 @@ struct Outcome
   std::uint64_t hash = 0;
 };
 
+inline Outcome run_plan_once(Plan const &p, Ctx &ctx);
+
+// A `leak` verdict is confirmed by executing the same plan a second time in the same process: a
+// one-time allocation of the code under test (a lazily initialised static, a cached locale) shows
+// up in the first execution only and is not a leak; a real leak shows up in both.
 inline Outcome run_plan(Plan const &p, Ctx &ctx)
+{
+  Outcome o = run_plan_once(p, ctx);
+  if (o.violation && o.cls == "leak")
+  {
+    Ctx again;
+    again.probes = ctx.probes;
+    Outcome o2 = run_plan_once(p, again);
+    if (!(o2.violation && o2.cls == "leak"))
+    {
+      ctx.probe("leak_not_confirmed_by_second_execution");
+      if (o2.violation)
+        return o2;
+      o.violation = false;
+      o.cls.clear();
+      o.detail.clear();
+    }
+  }
+  return o;
+}
+
+inline Outcome run_plan_once(Plan const &p, Ctx &ctx)
 {
   Outcome o;
   try
